@@ -194,6 +194,30 @@ def two_clients(sl):
                 core.s_and(tops[i].request_start == core.s_min(*[s for s, _ in wire[i]]), tops[i].request_end == core.s_max(*[e for _, e in wire[i]])))
 
 
+def two_clusters(sl):
+    """a multi-cluster runner talks to a second cluster's client object inside one logical request (opened on the default client by the
+    executor): every HTTP request issued on behalf of the logical request counts, whichever client object sends it"""
+    clock = Clock()
+    default, remote = Client(), Client()
+    plan = [[remote], [default, remote], [remote, default], [remote, remote]][concrete(fresh_int("which_clients_send", 0, 3))]
+    wire = []
+
+    async def main():
+        with default.new_request_context() as outer:
+            for c in plan:
+                c.on_request_start()
+                s = clock.now
+                c.on_request_end()
+                wire.append((s, clock.now))
+        return outer
+
+    with shadowed(client_context, (), extra={"time": clock.time_ns()}):
+        outer = _run(main)
+    core.trace("wire", len(wire))
+    observe("the logical request starts with the earliest HTTP request, whichever cluster's client sent it", outer.request_start is not None and outer.request_start == wire[0][0])
+    observe("and ends with the latest one", outer.request_end is not None and outer.request_end == wire[-1][1])
+
+
 def request_timing(sl):
     """runner.RequestTiming: the sub-request's own timing covers exactly that sub-request; the enclosing context covers all"""
     clock = Clock()
@@ -494,6 +518,13 @@ WIRE_SEQUENCES = {
 }
 
 
+CONNECTION_SEQUENCES = {
+    "pooled connection reused": ["reuseconn"],
+    "new connection": ["create_start", "dns_start", "dns_end", "create_end"],
+    "pool exhausted, then a new connection": ["queued_start", "queued_end", "create_start", "create_end"],
+}
+
+
 def wire_hooks(sl):
     """the hooks the REAL EsClientFactory.create_async registers on aiohttp's tracing signals, driven with each documented signal order on a
     symbolic clock: a wire request's start is its request-start signal, its end the LAST signal aiohttp sends for it"""
@@ -509,12 +540,20 @@ def wire_hooks(sl):
         c = f.create_async(client_id=0)
         try:
             tc = list(c.transport.node_pool.all())[0].trace_configs[0]
-            signals = {"start": tc.on_request_start, "end": tc.on_request_end, "chunk": tc.on_response_chunk_received, "exception": tc.on_request_exception}
+            signals = {"start": tc.on_request_start, "end": tc.on_request_end, "chunk": tc.on_response_chunk_received, "exception": tc.on_request_exception,
+                       # between the start of a request and its first byte on the wire aiohttp acquires a connection: a pooled one is reused, or a
+                       # new one is set up (a later wire request of the same logical request may well need a fresh connection: another node of the
+                       # cluster, a retry after a failure, a keep-alive connection the server has dropped)
+                       "reuseconn": tc.on_connection_reuseconn, "queued_start": tc.on_connection_queued_start, "queued_end": tc.on_connection_queued_end,
+                       "create_start": tc.on_connection_create_start, "dns_start": tc.on_dns_resolvehost_start, "dns_end": tc.on_dns_resolvehost_end,
+                       "create_end": tc.on_connection_create_end, "headers_sent": tc.on_request_headers_sent, "chunk_sent": tc.on_request_chunk_sent}
             with c.new_request_context() as outer:
-                for name in seqs:
+                for k, name in enumerate(seqs):
                     ctx = tc.trace_config_ctx()  # aiohttp creates one context object per request
                     mine = []
-                    for sig in WIRE_SEQUENCES[name]:
+                    conn = CONNECTION_SEQUENCES[sorted(CONNECTION_SEQUENCES)[concrete(fresh_int("connection_of_wire_request_%d" % k, 0, len(CONNECTION_SEQUENCES) - 1))]]
+                    full = WIRE_SEQUENCES[name][:1] + conn + (["headers_sent", "chunk_sent"] if "end" in WIRE_SEQUENCES[name] else []) + WIRE_SEQUENCES[name][1:]
+                    for sig in full:
                         before = clock.tick()  # time passes between two signals whether or not a hook looks at the clock
                         for cb in signals[sig]:
                             await cb(None, ctx, None)
@@ -554,7 +593,7 @@ HARNESSES = [
             doc="composite operations of concurrent clients do not read each other's timings"),
     Harness("wire_hooks", wire_hooks, "symbolic", lambda tier: [{"requests": 1}, {"requests": 2}],
             reads=READS + [__import__("esrally.client.factory", fromlist=["x"]).EsClientFactory.create_async], stubs=["clock", "aiohttp itself is not run: its tracing signals are delivered by the harness in the documented orders (listed in the bounds)"],
-            bounds={"wire requests": "1..2 in one logical request", "signal orders": sorted(WIRE_SEQUENCES)}, real_valued=True,
+            bounds={"wire requests": "1..2 in one logical request", "signal orders": sorted(WIRE_SEQUENCES), "connection acquisition per wire request": sorted(CONNECTION_SEQUENCES)}, real_valued=True,
             doc="hook wiring of the async client: start / end of wire requests as aiohttp signals them"),
     Harness("composite_streams", composite_streams, "symbolic", lambda tier: [{"max_connections": m} for m in (1, 2, 16)],
             reads=READS + [runner.Composite.__call__, runner.Composite.run_stream], stubs=STUBS + ["runner_for inside esrally.driver.runner returns gated stub runners"],
@@ -572,6 +611,9 @@ HARNESSES = [
     Harness("two_clients", two_clients, "symbolic", lambda tier: [{"requests": 1}] + ([{"requests": 2, "_w": 5}] if tier == "thorough" else []),
             reads=READS, stubs=STUBS, bounds={"clients": 2, "requests per client": "1 quick / 2 thorough", "interleavings": "all"},
             real_valued=True, doc="no leakage between concurrently running clients"),
+    Harness("two_clusters", two_clusters, "symbolic", lambda tier: [{}], reads=READS, stubs=STUBS,
+            bounds={"client objects": "2 (default and a remote cluster)", "wire requests": "1..2, sent by either client"}, real_valued=True,
+            doc="requests sent through another cluster's client object belong to the logical request"),
     Harness("request_timing", request_timing, "symbolic", lambda tier: [{"subrequests": n} for n in (1, 2, 3)], reads=READS, stubs=STUBS,
             bounds={"sub-requests": "<=3, each 1 or 2 wire requests"}, real_valued=True, doc="RequestTiming dependent timings inside a logical request"),
 ]
